@@ -43,6 +43,9 @@ type spec struct {
 	// NilKeys: bit k set = the genuine result of f(key k) is nil (testscript caches the error of an
 	// executable lookup this way: nil is the common answer). Computed once all the same.
 	NilKeys int `json:"keys_whose_result_is_nil"`
+	// ErrKeys: bit k set = the genuine result of f(key k) is a value that implements error (a cached
+	// failure is a result like any other: computed once, published, returned to everybody)
+	ErrKeys int `json:"keys_whose_result_is_an_error_value"`
 }
 
 type violationRec struct {
@@ -85,6 +88,11 @@ type keyPtr struct{ n int }
 
 // nilKeys is the NilKeys mask of the run in progress (runs of a batch are sequential).
 var nilKeys int
+
+// errValue is how the result of a key in ErrKeys travels through the cache: a struct value implementing error.
+type errValue struct{ r *result }
+
+func (e errValue) Error() string { return fmt.Sprintf("result of key %d", e.r.key) }
 
 func oneRun(sp spec, out *batchOut) {
 	nilKeys = sp.NilKeys
@@ -159,6 +167,9 @@ func oneRun(sp spec, out *batchOut) {
 			perturb(x >> 9)
 			atomic.StoreInt32(&inF[k], 0)
 			atomic.StoreInt32(&completed[k], 1) // last action of f
+			if sp.ErrKeys&(1<<k) != 0 {
+				return errValue{r}
+			}
 			return r
 		}
 	}
@@ -248,6 +259,9 @@ func checkValue(api string, k int, v any, nilOK bool, completed []int32, publish
 		}
 		return
 	}
+	if e, isErr := v.(errValue); isErr {
+		v = e.r
+	}
 	r, ok := v.(*result)
 	if !ok {
 		viol("foreign-value", fmt.Sprintf("%s(key %d) returned a %T", api, k, v))
@@ -335,6 +349,9 @@ func genSpec(rng *rand.Rand) spec {
 	if rng.Intn(3) == 0 {
 		s.NilKeys = rng.Intn(1 << s.K)
 	}
+	if s.Seed%4 == 1 {
+		s.ErrKeys = int(uint64(s.Seed)>>3) & (1<<s.K - 1)
+	}
 	return s
 }
 
@@ -379,7 +396,7 @@ func main() {
 		return
 	}
 	vlib.Main("C10", "exploration", 15*time.Minute, func(r *vlib.Run) {
-		r.Rule("runs: 2-32 goroutines x 1-6 keys (string keys as in testscript's exec cache, pointer keys as in goproxytest's zip cache, ints) x 1-6 random Do/Get operations each, with fast / slow / nested f, in a third of the runs some keys' genuine result is nil (still computed once); a quarter of the runs are rendezvous runs in which f(key 0) does not finish until another goroutine's Get(key 0) has returned. Every Do/Get result is checked against the monitor. One run in 100 is followed by a fault run: f panics (recovered by its caller) or calls runtime.Goexit, after which no Do for that key may invoke f again or return a value. Each batch runs in a child, in a non-race build (runtime deadlock detector) and a race build (watchdog + dump + race detector), GOMAXPROCS in {1,2,16}. Distinct non-trivial = Do calls that arrived while f for their key was in progress (measured), plus completed rendezvous.")
+		r.Rule("runs: 2-32 goroutines x 1-6 keys (string keys as in testscript's exec cache, pointer keys as in goproxytest's zip cache, ints) x 1-6 random Do/Get operations each, with fast / slow / nested f, in a third of the runs some keys' genuine result is nil (still computed once), in a quarter some keys' result is a value that implements error (a result like any other); a quarter of the runs are rendezvous runs in which f(key 0) does not finish until another goroutine's Get(key 0) has returned. Every Do/Get result is checked against the monitor. One run in 100 is followed by a fault run: f panics (recovered by its caller) or calls runtime.Goexit, after which no Do for that key may invoke f again or return a value. Each batch runs in a child, in a non-race build (runtime deadlock detector) and a race build (watchdog + dump + race detector), GOMAXPROCS in {1,2,16}. Distinct non-trivial = Do calls that arrived while f for their key was in progress (measured), plus completed rendezvous.")
 		r.Assume("interleavings are sampled, not enumerated; the race detector sees only the executions that happened")
 		base := vlib.Scratch()
 		build := os.Getenv("VERIF_BUILD")
